@@ -192,6 +192,11 @@ def program(kind, name, rng, L):
     if name == "eval":
         return [("Load",), ("EvalAt",)] + ([("Complete",), ("EvalAt",)] if both else [])
     nat = "real" if kind == "real" else "cplx"
+    if name == "mixed":
+        # point-wise evaluation interleaved with compiled transforms on the SAME object: evaluation must not disturb
+        # the state the transforms rely on (work arrays, cached tables)
+        return [("Synthesis", False), ("Analysis", nat), ("Load",), ("EvalAt",), ("Synthesis", False), ("Analysis", nat),
+                ("Load",), ("EvalAt",), ("Sample",), ("Analysis", nat)]
     if name == "single":
         return [("Sample",), ("Analysis", nat), ("Synthesis", False), ("Load",), ("SynthesisPP",),
                 ("AnalysisPP", nat)] + ([("Load",), ("Complete",), ("PowerSpectrum",)] if both
@@ -385,6 +390,8 @@ def recipes_for(ctx):
             for v in range(2 if ctx.quick else 3):
                 rs.append({"L": L, "kind": kind, "vec": sparse_spec(L, kind, rng, 8), "prog": "eval", "seed": nxt(),
                            "ne": 20})
+                if L >= 1:
+                    rs.append({"L": L, "kind": kind, "vec": sparse_spec(L, kind, rng, 6), "prog": "mixed", "seed": nxt(), "ne": 5})
                 rs.append({"L": L, "kind": kind, "vec": sparse_spec(L, kind, rng, 6), "prog": "main", "seed": nxt(),
                            "g1": sparse_spec(L, kind, rng, 1), "g2": sparse_spec(L, kind, rng, 1),
                            "k1": rng.choice([-3, -2, 2, 3]), "k2": rng.choice([-3, -2, 2, 3])})
